@@ -79,6 +79,38 @@ def run(ctx):
         kk = rng.choice(ka); idx = tuple(rng.randrange(n) for _ in kk)
         got = a[tuple(zip(idx, kk))]
         if complex(got) != complex(np.asarray(A[kk])[idx]): ctx.violation('C08 tensor_getitem: wrong entry', dict(rp, key=list(kk), index=list(idx)))
+    # ---- the same arithmetic on the PolynomialTensor subclasses (own constructors / overrides, non-zero constant) and
+    #      on DiagonalCoulombHamiltonian (separate class), judged through their denotation
+    for i in range(N(60, 400)):
+        n = rng.choice([1, 2, 3]); k = rng.choice([2.0, -0.5, 4.0, 1j])
+        def mk(kind):
+            const, one, two = rand_hermitian_iop(rng, n)
+            const = const or 1.5
+            if kind == 'iop': return of.InteractionOperator(const, one, two)
+            if kind == 'qh':
+                anti = np.zeros((n, n), dtype=complex)
+                if n >= 2 and rng.random() < 0.5: anti[0, 1] = dyc(rng); anti[1, 0] = -anti[0, 1]
+                return of.QuadraticHamiltonian(one, anti if np.any(anti) else None, const, rng.choice([0.0, 0.5]))
+            tw = np.real(np.array([[two[p_, q_, q_, p_] for q_ in range(n)] for p_ in range(n)])); tw = (tw + tw.T) / 2
+            return of.DiagonalCoulombHamiltonian(one, tw, const)
+        kind = rng.choice(['iop', 'iop', 'qh', 'dch'])
+        x, y = mk(kind), mk(kind)
+        def den(t):
+            if isinstance(t, of.DiagonalCoulombHamiltonian): return of.normal_ordered(of.get_fermion_operator(t)).terms
+            return spec_poly(t.n_body_tensors)
+        SX, SY = coq_fop_terms(den(x)), coq_fop_terms(den(y))
+        ops = [('-x', lambda: -x, '(iscale %s Cm1)' % SX), ('x + y', lambda: x + y, '(%s ++ %s)' % (SX, SY)), ('x - y', lambda: x - y, '(%s ++ iscale %s Cm1)' % (SX, SY))]
+        if not (kind == 'dch' and isinstance(k, complex)):
+            ops += [('x * k', lambda: x * k, '(iscale %s %s)' % (SX, cC(k))), ('k * x', lambda: k * x, '(iscale %s %s)' % (SX, cC(k))), ('x / k', lambda: x / k, '(iscale %s (Cinv %s))' % (SX, cC(k)))]
+        for name, fn, spec in ops:
+            rp = {'call': '%s on %s' % (name, type(x).__name__), 'n': n, 'k': repr(k), 'x': repr({kk: np.asarray(v).tolist() for kk, v in (x.n_body_tensors.items() if hasattr(x, 'n_body_tensors') else {})})}
+            if name == 'x - y' and hasattr(x, 'n_body_tensors') and any(kk not in x.n_body_tensors for kk in y.n_body_tensors): rp['finding'] = 'D7'   # a key only in the subtrahend (open finding D7)
+            try: r = fn()
+            except Exception as e:
+                ctx.stat('subclass_arithmetic', 'raised_%s' % type(e).__name__); continue
+            d = den(r)
+            if not exact_terms_ok(d, lo=30): continue
+            add('subclass_arithmetic', '(fermi_equiv %s %s)' % (coq_fop_terms(d), spec), rp, key=(kind, name, i))
     # ---- conversions
     for i in range(N(120, 900)):
         n = rng.choice([1, 2, 3, 4])
